@@ -347,6 +347,9 @@ def _phiM(zm, mo_len):
         phi_m : ndarray of shape (n_obs,)
             Values of phi_m in (Kormann and Meixner, 2001).
     """
+    # integer-typed inputs must not truncate the result (zeros_like inherits the dtype)
+    zm = np.asarray(zm, dtype=float)
+    mo_len = np.asarray(mo_len, dtype=float)
     phi_m = np.zeros_like(zm)
     sflag = mo_len < 0
     phi_m[sflag] = (1 - 16 * zm[sflag] / mo_len[sflag]) ** (-0.25)
@@ -372,6 +375,9 @@ def _phiC(zm, mo_len):
         phi_c : ndarray of shape (n_obs,)
             Values of phi_c in (Kormann and Meixner, 2001).
     """
+    # integer-typed inputs must not truncate the result (zeros_like inherits the dtype)
+    zm = np.asarray(zm, dtype=float)
+    mo_len = np.asarray(mo_len, dtype=float)
     phi_c = np.zeros_like(zm)
     sflag = mo_len < 0
     phi_c[sflag] = (1 - 16 * zm[sflag] / mo_len[sflag]) ** (-0.5)
@@ -397,6 +403,9 @@ def _psiM(zm, mo_len):
         psi_m : ndarray of shape (n_obs,)
             Values of psi_m in (Kormann and Meixner, 2001).
     """
+    # integer-typed inputs must not truncate the result (zeros_like inherits the dtype)
+    zm = np.asarray(zm, dtype=float)
+    mo_len = np.asarray(mo_len, dtype=float)
     psi_m = np.zeros_like(zm)
     sflag = mo_len < 0
     inv_phi_m = (1 - 16 * zm[sflag] / mo_len[sflag]) ** (0.25)
@@ -464,6 +473,9 @@ def _nParam(zm, mo_len):
     """
     # Estimate m using the analytical approach in (Kormann and Meixner, 2001),
     # following the Eq. (36).
+    # integer-typed inputs must not truncate the result (zeros_like inherits the dtype)
+    zm = np.asarray(zm, dtype=float)
+    mo_len = np.asarray(mo_len, dtype=float)
     n = np.zeros_like(zm)
     sflag = mo_len < 0
     n[sflag] = (1 - 24 * zm[sflag] / mo_len[sflag]) / (
